@@ -120,6 +120,9 @@ func familyByName(name string) *wgen.Family {
 	if name == "F1" {
 		return wgen.F1()
 	}
+	if name == "F3" || name == "F3t" {
+		return wgen.F3(name == "F3t")
+	}
 	var k int
 	if n, _ := fmt.Sscanf(name, "F2k%d", &k); n == 1 {
 		return wgen.F2(k, strings.HasSuffix(name, "core"))
